@@ -1474,6 +1474,20 @@ func (e *Engine) eval(fr *frame, st *State, in ssa.Value) AV {
 		if c, ok := st.KnownInt(e.val(fr, st, in.Len)); ok && (c == 0 || (e.SymSlices && c > 0 && c <= 64)) {
 			n = int(c)
 		}
+		if in.Cap != in.Len {
+			// make panics unless 0 <= len <= cap: what the path knows about that is an event
+			l, c := e.val(fr, st, in.Len), e.val(fr, st, in.Cap)
+			kind := "makecap-open"
+			if l != nil && c != nil {
+				le, ge := e.binop(st, token.LEQ, l, c), e.binop(st, token.GEQ, l, avConst{constant.MakeInt64(0)})
+				if t1, ok := le.(avConst); ok && t1.v.Kind() == constant.Bool && constant.BoolVal(t1.v) {
+					if t2, ok := ge.(avConst); ok && t2.v.Kind() == constant.Bool && constant.BoolVal(t2.v) {
+						kind = "makecap-ok"
+					}
+				}
+			}
+			st.event(Event{Kind: kind, Args: []AV{l, c}, Pos: in.Pos()})
+		}
 		o := e.NewObj("", in.Type())
 		o.of = e.val(fr, st, in.Len)
 		return avSlice{o: o, n: n}
@@ -1529,6 +1543,10 @@ func (e *Engine) eval(fr *frame, st *State, in ssa.Value) AV {
 		return avSym{id: e.fresh(), tag: "slice", payload: x}
 	case *ssa.SliceToArrayPointer:
 		if sl, ok := e.val(fr, st, in.X).(avSlice); ok {
+			if arr, isArr := derefType(in.Type()).Underlying().(*types.Array); isArr && sl.n >= 0 && int64(sl.n) < arr.Len() {
+				// the conversion panics when the slice is shorter than the array
+				st.event(Event{Kind: "runtime-panic", Pos: in.Pos(), Note: fmt.Sprintf("a slice of %d elements is converted to an array of %d", sl.n, arr.Len())})
+			}
 			return avPtr{sl.o, sl.path}
 		}
 		return nil
@@ -1536,7 +1554,7 @@ func (e *Engine) eval(fr *frame, st *State, in ssa.Value) AV {
 		return avSym{id: e.fresh(), tag: "range", payload: e.val(fr, st, in.X)}
 	case *ssa.Next:
 		it, _ := e.val(fr, st, in.Iter).(avSym)
-		return avTuple{avSym{id: e.fresh(), tag: "next-ok"}, avSym{id: e.fresh(), tag: "next-key", payload: it.payload}, avSym{id: e.fresh(), tag: "next-val", payload: it.payload}}
+		return avTuple{avSym{id: e.fresh(), tag: "next-ok", payload: it}, avSym{id: e.fresh(), tag: "next-key", payload: it.payload}, avSym{id: e.fresh(), tag: "next-val", payload: it.payload}}
 	}
 	e.Unmodelled[fmt.Sprintf("%T", in)]++
 	return nil
@@ -1650,6 +1668,21 @@ func (e *Engine) binop(st *State, op token.Token, x, y AV) AV {
 				inv = token.SUB
 			}
 			return e.binop(st, op, bx.x, avConst{constant.BinaryOp(cy.v, inv, c.v)})
+		}
+	}
+	// (c - s) op k  ==  s flip(op) (c - k)
+	if bx, ok := x.(avBin); ok && oky && bx.op == token.SUB && cy.v.Kind() == constant.Int {
+		if c, ok := bx.x.(avConst); ok && c.v.Kind() == constant.Int {
+			if _, isC := bx.y.(avConst); !isC {
+				return e.binop(st, flipOp(op), bx.y, avConst{constant.BinaryOp(c.v, token.SUB, cy.v)})
+			}
+		}
+	}
+	if by, ok := y.(avBin); ok && okx && by.op == token.SUB && cx.v.Kind() == constant.Int {
+		if c, ok := by.x.(avConst); ok && c.v.Kind() == constant.Int {
+			if _, isC := by.y.(avConst); !isC {
+				return e.binop(st, flipOp(op), avConst{constant.BinaryOp(c.v, token.SUB, cx.v)}, by.y)
+			}
 		}
 	}
 	if by, ok := y.(avBin); ok && okx && (by.op == token.ADD || by.op == token.SUB) {
